@@ -93,6 +93,8 @@ def main(tier):
             representable = st["refmax"] < FMAX[dtype] * (1 - 2 * u)
             if representable and not st["finite"]:
                 what = f"{label}: result is not finite although the reference ({st['refmax']:.6g}) is representable in {dtype}"
+                if c["op"] == "linear" and dtype == "bfloat16" and c.get("act") == "float" and c.get("wq") == "qint8" and K % 4 == 0 and K % 16 != 0:
+                    what = f"{label}: bfloat16 activations x int8 weights routed to torch._weight_int8pack_mm with in_features={K} (not a multiple of 16): the kernel returns garbage (off by {st['at_diff']:.4g}) when it does not crash"
                 if c.get("act") == "qint8" and c.get("wq") == "qint8" and K == 1 and c.get("out", 1) > 1:
                     what = f"{label}: torch._int_mm with in_features=1 and a transposed weight returns garbage (non-finite after scaling)"
                 if c.get("act", "").startswith("qfloat8") and c.get("wq", "").startswith("qfloat8") and dtype == "float16":
@@ -109,8 +111,12 @@ def main(tier):
             bound = ((K + 2) * acc_u + 5 * u) * st["at_absref"] + 1e-30
             if st["at_diff"] > bound:
                 what = f"{label}: differs from the product of the dequantized operands by {st['at_diff']:.4g} > accumulation bound {bound:.4g} (K={K}, {dtype})"
-                if dtype == "float16" and r.get("act_quantized") and 0 < r.get("scale_prod_min", 1) < 2.0**-14:
+                if dtype == "float16" and r.get("act_quantized") and 0 < r.get("scale_prod_min", 1) < 2.0**-14 and c["op"] in ("mm", "bmm"):
+                    what = f"{label}: torch.mm / torch.bmm of two quantized float16 tensors forms the product of their scales in float16, which is subnormal ({r['scale_prod_min']:.3g}): result off by {st['at_diff'] / max(st['at_absref'], 1e-30):.3g} relative"
+                elif dtype == "float16" and r.get("act_quantized") and 0 < r.get("scale_prod_min", 1) < 2.0**-14:
                     what = f"{label}: the float16 product of the activation and weight scales is subnormal ({r['scale_prod_min']:.3g}): result off by {st['at_diff'] / max(st['at_absref'], 1e-30):.3g} relative"
+                if c["op"] == "linear" and dtype == "bfloat16" and c.get("act") == "float" and c.get("wq") == "qint8" and K % 4 == 0 and K % 16 != 0:
+                    what = f"{label}: bfloat16 activations x int8 weights routed to torch._weight_int8pack_mm with in_features={K} (not a multiple of 16): the kernel returns garbage (off by {st['at_diff']:.4g}) when it does not crash"
                 if c.get("act") == "qint8" and c.get("wq") == "qint8" and K == 1 and c.get("out", 1) > 1:
                     what = f"{label}: torch._int_mm with in_features=1 and a transposed weight returns garbage (off by {st['at_diff']:.4g})"
                 ck.violation(what, {"case": cfg, "observed": st, "bound": bound})
@@ -120,7 +126,10 @@ def main(tier):
         judge(r, c["op"])
         for name, st in (r.get("routes") or {}).items():
             judge(st, "route " + name)
-            if c.get("exact") and not st["bit_equal_to_linear"]:
+            if c.get("exact") and not st["bit_equal_to_linear"] and c.get("act") == "qint8" and c.get("wq") == "qint8" and c.get("in") == 1 and c.get("out", 1) > 1:
+                ck.violation(f"route {name} vs F.linear on exact operands: torch._int_mm with in_features=1 and a transposed weight returns garbage (F.linear itself is off by {r['maxdiff']:.4g})",
+                             {"case": cfg, "route": st, "linear": {k: r[k] for k in ("maxdiff", "refmax")}})
+            elif c.get("exact") and not st["bit_equal_to_linear"]:
                 ck.violation(f"route {name} and F.linear disagree on exact operands (every partial sum representable)", {"case": cfg, "route": st, "linear": {k: r[k] for k in ("maxdiff", "refmax")}})
     ck.assumptions += [
         "torch.matmul / torch._int_mm / torch._weight_int8pack_mm are MODELLED as sums of products (exact-arithmetic theorems); their floating-point accumulation error is bounded by the audit's analytic bound (K+3)*u_acc*sum|a||w| + output rounding, not proved",
